@@ -39,12 +39,14 @@ pub struct Cfg {
     pub full_ite: bool,
     /// 0 = all functions of n variables are operands; 1 = cubes, clauses and functions of <= 2 variables
     pub pool: u8,
+    /// label of table variable i in a wider manager (empty = label i in an n-variable manager)
+    pub labels: Vec<usize>,
 }
 
 impl Cfg {
     pub fn json(&self) -> Value {
         json!({"n": self.n, "order": self.order, "cache": match self.cache { CacheKind::All => json!("all"), CacheKind::Lru(None) => json!("lru-default"), CacheKind::Lru(Some(p)) => json!(format!("lru-2^{}", p)) },
-               "table_cap": self.table_cap, "issue": self.issue, "ite_pool": self.ite_pool, "full_ite": self.full_ite, "pool": self.pool})
+               "table_cap": self.table_cap, "issue": self.issue, "ite_pool": self.ite_pool, "full_ite": self.full_ite, "pool": self.pool, "labels": self.labels})
     }
     pub fn from_json(v: &Value) -> Option<Cfg> {
         let cache = match v["cache"].as_str()? {
@@ -61,11 +63,35 @@ impl Cfg {
             ite_pool: v["ite_pool"].as_u64()? as usize,
             full_ite: v["full_ite"].as_bool()?,
             pool: v["pool"].as_u64().unwrap_or(0) as u8,
+            labels: v["labels"].as_array().map(|a| a.iter().filter_map(|x| x.as_u64()).map(|x| x as usize).collect()).unwrap_or_default(),
         })
     }
     fn var_order(&self) -> VarOrder {
-        let v: Vec<VarLabel> = self.order.iter().map(|&x| VarLabel::new(x as u64)).collect();
+        if self.labels.is_empty() {
+            let v: Vec<VarLabel> = self.order.iter().map(|&x| VarLabel::new(x as u64)).collect();
+            return VarOrder::new(&v);
+        }
+        // wide manager: the mapped labels keep the relative order `order`, spread evenly among
+        // the other labels (which stay in increasing order)
+        let nn = self.labels.iter().max().unwrap() + 1;
+        let others: Vec<usize> = (0..nn).filter(|l| !self.labels.contains(l)).collect();
+        let mut full: Vec<usize> = Vec::new();
+        let mut oi = 0;
+        for (k, &v) in self.order.iter().enumerate() {
+            let target = if self.n > 1 { k * others.len() / (self.n - 1) } else { 0 };
+            while oi < target.min(others.len()) {
+                full.push(others[oi]);
+                oi += 1;
+            }
+            full.push(self.labels[v]);
+        }
+        full.extend(others[oi..].iter().cloned());
+        let v: Vec<VarLabel> = full.iter().map(|&x| VarLabel::new(x as u64)).collect();
         VarOrder::new(&v)
+    }
+    /// number of variables of the manager at construction
+    pub fn manager_vars(&self) -> usize {
+        if self.labels.is_empty() { self.n } else { self.labels.iter().max().unwrap() + 1 }
     }
 }
 
@@ -139,6 +165,8 @@ struct Sw<'a, 'e, T: IteTable<'a, BddPtr<'a>> + Default> {
     new_funcs: u64,
     stop: bool,
     mat: Vec<usize>,
+    /// label of each table variable (grows with new_var)
+    lab: Vec<usize>,
 }
 
 fn structure_digest(p: BddPtr) -> u64 {
@@ -163,6 +191,17 @@ impl<'a, 'e, T: IteTable<'a, BddPtr<'a>> + Default> Sw<'a, 'e, T> {
         self.rep.violation(format!("{}:{}", prop, key), what, case);
     }
 
+    fn lbl(&self, v: usize) -> VarLabel {
+        VarLabel::new(self.lab[v] as u64)
+    }
+
+    /// truth table over the table variables (labels mapped back); a label outside the map makes
+    /// the table all-ones-plus (never equal to a wanted table of < 64 rows... reported)
+    fn tt_of(&self, p: BddPtr<'a>) -> Result<TT, String> {
+        let lab = &self.lab;
+        bdd_tt_mapped(p, self.n, &|l| lab.iter().position(|&m| m == l))
+    }
+
     /// the central oracle: check one result against its definition and the canonicity map
     fn check(&mut self, r: Result<BddPtr<'a>, String>, want: TT, op: &Op) -> Option<BddPtr<'a>> {
         self.opno += 1;
@@ -174,7 +213,13 @@ impl<'a, 'e, T: IteTable<'a, BddPtr<'a>> + Default> Sw<'a, 'e, T> {
                 return None;
             }
         };
-        let got = bdd_tt(r, self.n);
+        let got = match self.tt_of(r) {
+            Ok(g) => g,
+            Err(e) => {
+                self.viol("C01", "wrong-function", format!("{:?} [{}]: {}", op, self.cfg.json(), e), op);
+                return None;
+            }
+        };
         if got != want {
             self.viol(
                 "C01",
@@ -204,7 +249,8 @@ impl<'a, 'e, T: IteTable<'a, BddPtr<'a>> + Default> Sw<'a, 'e, T> {
                 self.canon.insert(got, id);
                 self.canon.insert(tt::not(got, self.n), bdd_id(r.neg()));
                 let lv = self.level.clone();
-                if let Some(d) = bdd_shape_defect(r, &|v| lv[v]) {
+                let lab = self.lab.clone();
+                if let Some(d) = bdd_shape_defect(r, &|l| lab.iter().position(|&m| m == l).map(|v| lv[v]).unwrap_or(usize::MAX)) {
                     self.viol("C02", "ill-shaped", format!("{:?} [{}]: {}", op, self.cfg.json(), d), op);
                 }
             }
@@ -238,7 +284,7 @@ impl<'a, 'e, T: IteTable<'a, BddPtr<'a>> + Default> Sw<'a, 'e, T> {
         for k in 0..self.mat.len() {
             let t = self.mat[k];
             let want = tt::extend(t as TT, self.cfg.n, self.n);
-            let got = bdd_tt(self.f[t], self.n);
+            let got = self.tt_of(self.f[t]).unwrap_or(!want);
             self.rep.evaluations += 1;
             if got != want {
                 let op = Op::Materialise(t as TT);
@@ -258,7 +304,13 @@ impl<'a, 'e, T: IteTable<'a, BddPtr<'a>> + Default> Sw<'a, 'e, T> {
             });
             c /= 3;
         }
-        (PartialModel::from_assignments(&a), a)
+        // the model speaks about labels: spread the assignments over the manager's width
+        let width = self.lab.iter().max().map(|m| m + 1).unwrap_or(0);
+        let mut wide: Vec<Option<bool>> = vec![None; width];
+        for (v, x) in a.iter().enumerate() {
+            wide[self.lab[v]] = *x;
+        }
+        (PartialModel::from_assignments(&wide), a)
     }
 
     /// issue one operation on the real builder and check it
@@ -293,15 +345,15 @@ impl<'a, 'e, T: IteTable<'a, BddPtr<'a>> + Default> Sw<'a, 'e, T> {
             }
             Op::Cond(x, v, val) => {
                 let px = p(self, *x);
-                (guarded(|| b.condition(px, VarLabel::new(*v as u64), *val)), tt::cofactor(*x, *v, *val, n))
+                (guarded(|| b.condition(px, self.lbl(*v), *val)), tt::cofactor(*x, *v, *val, n))
             }
             Op::Exists(x, v) => {
                 let px = p(self, *x);
-                (guarded(|| b.exists(px, VarLabel::new(*v as u64))), tt::exists(*x, *v, n))
+                (guarded(|| b.exists(px, self.lbl(*v))), tt::exists(*x, *v, n))
             }
             Op::Compose(x, v, g) => {
                 let (px, pg) = (p(self, *x), p(self, *g));
-                (guarded(|| b.compose(px, VarLabel::new(*v as u64), pg)), tt::compose_def(*x, *v, *g, n))
+                (guarded(|| b.compose(px, self.lbl(*v), pg)), tt::compose_def(*x, *v, *g, n))
             }
             Op::CondModel(x, code) => {
                 let px = p(self, *x);
@@ -335,7 +387,7 @@ impl<'a, 'e, T: IteTable<'a, BddPtr<'a>> + Default> Sw<'a, 'e, T> {
         };
         if let (true, Some(r)) = (chain && is_ite, r) {
             for v in 0..n {
-                let l = VarLabel::new(v as u64);
+                let l = self.lbl(v);
                 for (what, got, exp) in [
                     ("condition(true)", guarded(|| b.condition(r, l, true)), tt::cofactor(want, v, true, n)),
                     ("condition(false)", guarded(|| b.condition(r, l, false)), tt::cofactor(want, v, false, n)),
@@ -345,7 +397,7 @@ impl<'a, 'e, T: IteTable<'a, BddPtr<'a>> + Default> Sw<'a, 'e, T> {
                     match got {
                         Err(p) => self.viol("C01", "panic", format!("{} on variable {} of the result of {:?} panicked: {}", what, v, op, p), &op),
                         Ok(g) => {
-                            let gt = bdd_tt(g, n);
+                            let gt = self.tt_of(g).unwrap_or(!exp);
                             if gt != exp {
                                 self.viol("C01", "wrong-function", format!("{} on variable {} of the result of {:?} [{}] returned {:#x}, the definition gives {:#x}", what, v, op, self.cfg.json(), gt, exp), &op);
                             }
@@ -389,7 +441,7 @@ impl<'a, 'e, T: IteTable<'a, BddPtr<'a>> + Default> Sw<'a, 'e, T> {
         }
         let hi = self.shannon(tt::cofactor(t, v, true, n), v + 1);
         let lo = self.shannon(tt::cofactor(t, v, false, n), v + 1);
-        let x = self.b.var(VarLabel::new(v as u64), true);
+        let x = self.b.var(self.lbl(v), true);
         self.rep.transitions += 1;
         self.b.ite(x, hi, lo)
     }
@@ -497,6 +549,7 @@ fn sweep<'a, 'e, T: IteTable<'a, BddPtr<'a>> + Default>(
         new_funcs: 0,
         stop: false,
         mat: Vec::new(),
+        lab: if cfg.labels.is_empty() { (0..n).collect() } else { cfg.labels.clone() },
     };
     s.rep.exhaustive = true;
     s.canon.insert(tt::mask(n), (0, false));
@@ -661,13 +714,15 @@ fn sweep<'a, 'e, T: IteTable<'a, BddPtr<'a>> + Default>(
                 }
                 Ok((lbl, ptr)) => {
                     let newv = s.n;
-                    if lbl.value_usize() != newv {
+                    let want_label = cfg.manager_vars() + round;
+                    if lbl.value_usize() != want_label {
                         let op = Op::Materialise(0);
-                        s.viol("C01", "new-var-label", format!("new_var returned label {} for the {}-variable builder", lbl.value(), newv), &op);
+                        s.viol("C01", "new-var-label", format!("new_var returned label {} for the {}-variable builder", lbl.value(), want_label), &op);
                         break;
                     }
                     s.n += 1;
                     s.level.push(newv);
+                    s.lab.push(want_label);
                     let n2 = s.n;
                     // re-key the canonicity map to the wider tables
                     let old: Vec<(TT, (usize, bool))> = s.canon.drain().collect();
@@ -678,7 +733,7 @@ fn sweep<'a, 'e, T: IteTable<'a, BddPtr<'a>> + Default>(
                     let op0 = Op::Materialise(xl);
                     s.opno += 1;
                     // the new literal itself
-                    let got = bdd_tt(ptr, n2);
+                    let got = s.tt_of(ptr).unwrap_or(!xl);
                     s.rep.transitions += 1;
                     if got != xl {
                         s.viol("C01", "wrong-function", format!("new_var({}) denotes {:#x}", pol, got), &op0);
@@ -700,10 +755,10 @@ fn sweep<'a, 'e, T: IteTable<'a, BddPtr<'a>> + Default>(
                                 // conditioning / quantifying the new variable away again
                                 for val in [true, false] {
                                     let w = tt::cofactor(want, newv, val, n2);
-                                    let rr = guarded(|| b.condition(r, VarLabel::new(newv as u64), val));
+                                    let rr = guarded(|| b.condition(r, VarLabel::new(want_label as u64), val));
                                     s.check(rr, w, &Op::Cond(want, newv, val));
                                 }
-                                let rr = guarded(|| b.exists(r, VarLabel::new(newv as u64)));
+                                let rr = guarded(|| b.exists(r, VarLabel::new(want_label as u64)));
                                 s.check(rr, tt::exists(want, newv, n2), &Op::Exists(want, newv));
                             }
                         }
@@ -718,7 +773,7 @@ fn sweep<'a, 'e, T: IteTable<'a, BddPtr<'a>> + Default>(
                         }
                         // compose an old variable by the new literal
                         for v in 0..cfg.n {
-                            let res = guarded(|| b.compose(px, VarLabel::new(v as u64), ptr));
+                            let res = guarded(|| b.compose(px, s.lbl(v), ptr));
                             s.check(res, tt::compose_def(x, v, xl, n2), &Op::Compose(x, v, xl));
                         }
                         if s.stop {
@@ -993,6 +1048,7 @@ fn run_order_group(order: &[usize], n: usize, ctx: &Ctx, issue: usize, full_ite_
         ite_pool,
         full_ite: full_ite_all,
         pool: 0,
+        labels: vec![],
     };
     let (mut rep, digests) = run_sweep_cfg(&base, None, ctx);
     let mut lossy: Vec<Cfg> = Vec::new();
@@ -1051,11 +1107,37 @@ pub fn run_all(ctx: &Ctx) -> Report {
     let growths = r2.extra.get("table_growths").and_then(|v| v.as_u64()).unwrap_or(0);
     let compl = r2.extra.get("complemented_roots_seen").and_then(|v| v.as_u64()).unwrap_or(0);
     rep.merge(r2);
+    // R2w, n = 3 in wide managers: the three table variables carry sparse, large labels (on both
+    // sides of machine-word boundaries); all functions, all ordered pairs, as R2, in lock step
+    // with one lossy cache
+    {
+        let maps: Vec<Vec<usize>> = if full { vec![vec![0, 64, 1], vec![63, 64, 127], vec![5, 69, 133], vec![128, 0, 64]] } else { vec![vec![0, 64, 1], vec![63, 64, 127]] };
+        let mut itemsw: Vec<(usize, Vec<usize>, Vec<usize>)> = Vec::new();
+        for m in maps.iter() {
+            for (i, o) in permutations(3).into_iter().enumerate() {
+                itemsw.push((i, o, m.clone()));
+            }
+        }
+        let rw = par_run(ctx, &itemsw, |_, (i, o, m)| {
+            let base = Cfg { n: 3, order: o.clone(), cache: CacheKind::All, table_cap: 2, issue: i + ctx.seed as usize, ite_pool: 16, full_ite: false, pool: 0, labels: m.clone() };
+            let (mut r, dig) = run_sweep_cfg(&base, None, ctx);
+            r.add_extra("configurations", 1);
+            let mut c = base.clone();
+            c.cache = CacheKind::Lru(Some(0));
+            let (x, _) = run_sweep_cfg(&c, Some(&dig), ctx);
+            r.add_extra("configurations", 1);
+            r.merge(x);
+            r
+        });
+        rep.bound("R2w", json!({"variables": 3, "label_maps": maps, "manager_widths": maps.iter().map(|m| m.iter().max().unwrap() + 1).collect::<Vec<_>>(), "orders": 6, "caches": ["all", "lru-2^0"]}));
+        rep.add_extra("R2w_operations", rw.transitions);
+        rep.merge(rw);
+    }
     // R4, n = 4: operand pool (cubes, clauses, every function of <= 2 variables), every ordered
     // pair, under all 24 orders, cache-everything and two lossy capacities in lock step
     let items4: Vec<(usize, Vec<usize>)> = permutations(4).into_iter().enumerate().collect();
     let r4 = par_run(ctx, &items4, |i, (_, o)| {
-        let base = Cfg { n: 4, order: o.clone(), cache: CacheKind::All, table_cap: 2, issue: i + ctx.seed as usize, ite_pool: ctx.tier.pick(20, 48), full_ite: false, pool: 1 };
+        let base = Cfg { n: 4, order: o.clone(), cache: CacheKind::All, table_cap: 2, issue: i + ctx.seed as usize, ite_pool: ctx.tier.pick(20, 48), full_ite: false, pool: 1, labels: vec![] };
         let (mut r, dig) = run_sweep_cfg(&base, None, ctx);
         r.add_extra("configurations", 1);
         for cache in [CacheKind::Lru(Some(0)), CacheKind::Lru(Some(3))] {
@@ -1077,7 +1159,7 @@ pub fn run_all(ctx: &Ctx) -> Report {
         o5.extend(permutations(5).into_iter().skip(5).step_by(11));
         let items5: Vec<(usize, Vec<usize>)> = o5.into_iter().enumerate().collect();
         let r5 = par_run(ctx, &items5, |i, (_, o)| {
-            let base = Cfg { n: 5, order: o.clone(), cache: CacheKind::All, table_cap: 2, issue: i + ctx.seed as usize, ite_pool: 24, full_ite: false, pool: 1 };
+            let base = Cfg { n: 5, order: o.clone(), cache: CacheKind::All, table_cap: 2, issue: i + ctx.seed as usize, ite_pool: 24, full_ite: false, pool: 1, labels: vec![] };
             let (mut r, dig) = run_sweep_cfg(&base, None, ctx);
             r.add_extra("configurations", 1);
             let mut c = base.clone();
@@ -1097,7 +1179,7 @@ pub fn run_all(ctx: &Ctx) -> Report {
     let mut r1cfgs: Vec<Cfg> = Vec::new();
     for o in permutations(2) {
         for (cache, cap) in [(CacheKind::All, 2usize), (CacheKind::Lru(Some(0)), 2), (CacheKind::Lru(Some(1)), 2)] {
-            r1cfgs.push(Cfg { n: 2, order: o.clone(), cache, table_cap: cap, issue: 0, ite_pool: 0, full_ite: false, pool: 0 });
+            r1cfgs.push(Cfg { n: 2, order: o.clone(), cache, table_cap: cap, issue: 0, ite_pool: 0, full_ite: false, pool: 0, labels: vec![] });
         }
     }
     let depth = ctx.tier.pick(2, 3);
